@@ -17,6 +17,7 @@ Ops (modules are referred to by index in project.modules; everything JSON-able):
   ["connect", [[i, neg]..], [[j, neg]..]]   project.connect(list, list) with ~ where neg
   ["connect_single", [i, neg], [j, neg]]     project.connect(mod, mod)
   ["x", spelling, a, f]                 cross-project operand f of the second project (must be refused)
+  ["xlink", i, j, dis]                  a link operation inside the second project
   ["save_load"]                         project = read(project.read())        (C08)
 """
 
@@ -143,6 +144,13 @@ class World:
             p.connect([self.wrap(x) for x in op[1]], [self.wrap(x) for x in op[2]])
         elif k == "connect_single":
             p.connect(self.wrap(op[1]), self.wrap(op[2]))
+        elif k == "xlink":
+            F = self.foreign.modules
+            a, b = F[op[1] % len(F)], F[op[2] % len(F)]
+            if op[3]:
+                a >> ~b
+            else:
+                a >> b
         elif k == "x":
             f = self.foreign.modules[op[3]]
             a = M(op[2])
